@@ -6,7 +6,7 @@
    The converse direction of Proofs/Sem_derive_proofs.v (C01). *)
 From TsRs Require Import Base.Str Base.Outcome Gen.Tables Model.Case Model.TsAst Model.Rust Model.Docs Model.Gen
   Spec.TsFree Spec.TsSem Spec.Serde Spec.SerdeDe Spec.RtyInd Proofs.Gen_base_proofs Proofs.Sem_base_proofs Proofs.Sem_lib_proofs
-  Proofs.Sem_derive_proofs.
+  Proofs.Sem_derive_proofs Model.Path Model.Merge Model.GenExport.
 From Coq Require Import List Lia Bool ZArith.
 Import ListNotations.
 Local Open Scope nat_scope.
@@ -276,6 +276,61 @@ Proof.
   - destruct (lookup R id) as [d|] eqn:Hlk; [|discriminate]. apply andb_true_iff in Hm as [Hlen Hargs]. apply Nat.eqb_eq in Hlen.
     apply bind_ok in Ha as (l & Hl & Ha). inversion Ha; subst. eapply Hdd; eassumption.
 Qed.
+(* the same for TS::inline(): derived leaves are inlined (their body at the arguments); tuples and ranges cannot be *)
+Variable g : dgen.
+Hypothesis Hgd : forall id d args r j f, lookup R id = Some d ->
+  length args = length (c_params (attrs_of d)) -> forallb mono_ty args = true -> forallb small_arr args = true ->
+  g d args = Ok r -> f <= F -> memberb E f (fst r) j = true -> wf_json j = true ->
+  acc (dd d args j).
+
+Theorem lib_inline_de : forall t a j f,
+  mono_ty t = true -> small_arr t = true -> lib_inline R g t = Ok a -> f <= F -> memberb E f a j = true -> wf_json j = true ->
+  acc (de_ty t j).
+Proof.
+  induction t as [l|t IH|t IH|n t IH|ts IH|k vt IHk IHv|t IH|t e IHt IHe|t IH|id args IH|i|n] using rty_ind';
+    intros a j f Hm Hsm Ha Hf Hmem Hwf; unfold Sem_derive_proofs.mono_ty in Hm; cbn [pmono] in Hm; fold (Sem_derive_proofs.mono_ty R) in *;
+    try discriminate; cbn [Gen.lib_inline] in Ha; try discriminate; cbn [SerdeDe.de_ty]; cbn [small_arr] in Hsm.
+  - inversion Ha; subst. eapply leaf_acc; exact Hmem.
+  - apply bind_ok in Ha as (x & Hx & Ha). inversion Ha; subst; clear Ha. destruct f as [|f]; [discriminate|].
+    cbn [memberb existsb] in Hmem. rewrite orb_false_r in Hmem.
+    destruct j; try apply acc_ok;
+      (apply dbind_acc; [|intros; apply acc_ok]; apply orb_true_iff in Hmem as [Hmem|Hmem];
+       [eapply IH; [exact Hm | exact Hsm | exact Hx | | exact Hmem | exact Hwf]; lia
+       | destruct f; [discriminate | cbn [prim memberb] in Hmem; apply prim_null in Hmem; discriminate]]).
+  - apply bind_ok in Ha as (x & Hx & Ha). inversion Ha; subst; clear Ha. destruct f as [|f]; [discriminate|].
+    cbn [memberb] in Hmem. destruct j; try discriminate. apply dseq_acc. apply Forall_forall. intros r Hr.
+    apply in_map_iff in Hr as (y & <- & Hy). rewrite forallb_forall in Hmem.
+    eapply IH; [exact Hm | exact Hsm | exact Hx | | apply Hmem; exact Hy | eapply wf_arr; eassumption]. lia.
+  - apply andb_true_iff in Hsm as [Hn Hsm]. destruct n as [|n'].
+    { inversion Ha; subst. destruct f as [|f]; [discriminate|]. cbn [memberb] in Hmem. destruct j; try discriminate.
+      destruct l; [|discriminate]. cbn. apply acc_ok. }
+    apply bind_ok in Ha as (x & Hx & Ha). inversion Ha; subst; clear Ha. destruct f as [|f]; [discriminate|].
+    unfold array_ts in Hmem. apply Nat.leb_le in Hn. replace (Nat.ltb ARRAY_TUPLE_LIMIT (S n')) with false in Hmem by (symmetry; apply Nat.ltb_ge; exact Hn).
+    cbn [memberb] in Hmem. destruct j; try discriminate. apply forall2b_repeat in Hmem as [Hlen Hall]. rewrite Hlen, Nat.eqb_refl.
+    apply dseq_acc. apply Forall_forall. intros r Hr.
+    apply in_map_iff in Hr as (y & <- & Hy). rewrite forallb_forall in Hall.
+    eapply IH; [exact Hm | exact Hsm | exact Hx | | apply Hall; exact Hy | eapply wf_arr; eassumption]. lia.
+  - apply bind_ok in Ha as (x & Hx & Ha). apply bind_ok in Ha as (y & Hy & Ha). inversion Ha; subst; clear Ha.
+    apply andb_true_iff in Hm as [Hkl Hvm]. apply andb_true_iff in Hsm as [_ Hsv]. destruct f as [|f]; [discriminate|].
+    cbn [memberb] in Hmem. destruct j; try discriminate. apply dseq_acc. apply Forall_forall. intros r Hr.
+    apply in_map_iff in Hr as (e & <- & He). destruct (alt_member_mapped _ _ _ _ Hmem e He) as [Hk Hv].
+    assert (Hxn : name_of R k = Ok x) by (destruct k; try discriminate; exact Hx).
+    apply dbind_acc; [eapply key_acc; eassumption|]. intros kv. apply dbind_acc; [|intros; apply acc_ok].
+    eapply IHv; [exact Hvm | exact Hsv | exact Hy | | exact Hv | destruct e; eapply wf_obj_in; eassumption]. lia.
+  - eapply IH; eassumption.
+  - apply bind_ok in Ha as (x & Hx & Ha). apply bind_ok in Ha as (y & Hy & Ha). inversion Ha; subst; clear Ha.
+    apply andb_true_iff in Hm as [Ht He]. apply andb_true_iff in Hsm as [Hst Hse]. destruct f as [|f]; [discriminate|].
+    cbn [memberb] in Hmem. destruct j; try discriminate. destruct l as [|[k z] [|? ?]]; try discriminate.
+    assert (Hwz : wf_json z = true) by (eapply wf_obj_in; [exact Hwf | left; reflexivity]).
+    destruct (s_eq "Ok" k) eqn:Hok.
+    + apply dbind_acc; [|intros; apply acc_ok]. apply s_eq_true in Hok. subst k. cbn [andb orb] in Hmem.
+      replace (s_eq "Err" (lit "Ok")) with false in Hmem by reflexivity. cbn [andb] in Hmem. rewrite orb_false_r in Hmem.
+      eapply IHt; [exact Ht | exact Hst | exact Hx | | exact Hmem | exact Hwz]. lia.
+    + cbn [andb orb] in Hmem. destruct (s_eq "Err" k); [|discriminate]. cbn [andb] in Hmem.
+      apply dbind_acc; [|intros; apply acc_ok]. eapply IHe; [exact He | exact Hse | exact Hy | | exact Hmem | exact Hwz]. lia.
+  - destruct (lookup R id) as [d|] eqn:Hlk; [|discriminate]. apply andb_true_iff in Hm as [Hlen Hargs]. apply Nat.eqb_eq in Hlen.
+    destruct (g d args) as [r| |] eqn:Hr; try discriminate. cbn [omap] in Ha. inversion Ha; subst. eapply Hgd; eassumption.
+Qed.
 End LibDe.
 
 (* ============================ membership, one step backwards ==================================== *)
@@ -330,6 +385,154 @@ Qed.
 
 Definition shape_fields (s : shape) : list field := match s with SUnit => [] | STuple fs | SNamed fs => fs end.
 
+(* ============================ the fragment ====================================================== *)
+(* definitions the acceptance theorem speaks about: structs and enums of every shape, generic or not, rename / rename_all /
+   rename_all_fields / skip / struct-level tag, all four enum representations, `inline`, `optional` (field and container
+   level, nullable or not) on Option fields; no flatten / type / as overrides; arrays read as tuples; a tag key is not a
+   field key; variants of a tagged enum have distinct names on the wire *)
+Section Fragment.
+Variable is_upper : char -> bool.
+Variable R : env.
+
+Definition not_param (t : rty) : Prop := match t with RParam _ => False | _ => True end.
+
+Definition dfield (n : nat) (opt : optional) (fl : field) : Prop :=
+  f_flatten fl = false /\ f_type fl = None /\ f_serde_ty fl = f_ty fl /\ pmono R n (f_ty fl) = true /\
+  (f_inline fl = true -> n = 0) /\ small_arr (f_ty fl) = true /\
+  match f_optional fl with NotOptional => True | Optional _ => is_option (f_ty fl) = true end /\
+  match opt with NotOptional => True | Optional _ => not_param (f_ty fl) end.
+
+Definition dshape (n : nat) (opt : optional) (s : shape) : Prop :=
+  match s with
+  | SUnit => True
+  | STuple [f] => dfield n opt f /\ f_skip f = false        (* a skipped newtype field is a known class *)
+  | STuple fs => Forall (dfield n opt) fs
+  | SNamed fs => Forall (dfield n opt) fs
+  end.
+
+Definition tag_free (t : str) (ra : option rule) (s : shape) : Prop :=
+  match s with SNamed fs => NoDup (t :: map (Gen.field_key ra) (live fs)) | _ => True end.
+
+Definition dvariant (n : nat) (tg : tagging) (raf : option rule) (v : variant) : Prop :=
+  v_type v = None /\ v_as v = None /\ v_untagged v = false /\ dshape n NotOptional (v_shape v) /\
+  match tg with
+  | Internal t => match v_shape v with STuple _ => False | s => tag_free t (variant_rename_all raf v) s end
+  | _ => True
+  end.
+
+Definition names_distinct (a : cattrs) (tg : tagging) (vs : list variant) : Prop :=
+  match tg with Untagged => True | _ => NoDup (map (fun v => Gen.variant_name is_upper (c_rename_all a) v) (live_variants vs)) end.
+
+Definition def_ok (n : nat) (d : typedef) : Prop :=
+  let a := attrs_of d in
+  c_type a = None /\ c_as a = None /\ length (c_params a) = n /\
+  match d with
+  | DStruct a s =>
+      dshape n (c_optional_fields a) s /\
+      match c_tag a with
+      | None => True
+      | Some t => exists fs, s = SNamed fs /\ NoDup (t :: map (Gen.field_key (c_rename_all a)) (live fs))
+      end
+  | DEnum a tg raf vs => Forall (fun v => v_skip v = false -> dvariant n tg raf v) vs /\ names_distinct a tg vs
+  end.
+
+(* ---- the same, decidable ---- *)
+Definition not_paramb (t : rty) : bool := match t with RParam _ => false | _ => true end.
+
+Definition dfieldb (n : nat) (opt : optional) (fl : field) : bool :=
+  negb (f_flatten fl) && is_none (f_type fl) && rty_eqb (f_serde_ty fl) (f_ty fl) && pmono R n (f_ty fl) &&
+  (negb (f_inline fl) || Nat.eqb n 0) && small_arr (f_ty fl) &&
+  match f_optional fl with NotOptional => true | Optional _ => is_option (f_ty fl) end &&
+  match opt with NotOptional => true | Optional _ => not_paramb (f_ty fl) end.
+
+Lemma dfieldb_ok n opt fl : dfieldb n opt fl = true -> dfield n opt fl.
+Proof.
+  unfold dfieldb, dfield. intros H.
+  repeat match type of H with (_ && _) = true => let H' := fresh "H" in apply andb_true_iff in H as [H H'] end.
+  repeat split.
+  - apply negb_true_iff; assumption.
+  - apply is_none_eq; assumption.
+  - apply rty_eqb_eq; assumption.
+  - assumption.
+  - intros Hi. match goal with Hx : (negb (f_inline fl) || Nat.eqb n 0)%bool = true |- _ => rewrite Hi in Hx; cbn in Hx; apply Nat.eqb_eq in Hx; exact Hx end.
+  - assumption.
+  - destruct (f_optional fl); [exact I | assumption].
+  - destruct opt; [exact I|]. destruct (f_ty fl); try exact I. discriminate.
+Qed.
+
+Definition dshapeb (n : nat) (opt : optional) (s : shape) : bool :=
+  match s with
+  | SUnit => true
+  | STuple [f] => dfieldb n opt f && negb (f_skip f)
+  | STuple fs => forallb (dfieldb n opt) fs
+  | SNamed fs => forallb (dfieldb n opt) fs
+  end.
+
+Lemma dshapeb_ok n opt s : dshapeb n opt s = true -> dshape n opt s.
+Proof.
+  destruct s as [|fs|fs]; cbn [dshapeb dshape]; intros H.
+  - exact I.
+  - destruct fs as [|f [|g r]].
+    + constructor.
+    + apply andb_true_iff in H as [H1 H2]. split; [apply dfieldb_ok; exact H1 | apply negb_true_iff; exact H2].
+    + eapply forallb_Forall'; [apply dfieldb_ok | exact H].
+  - eapply forallb_Forall'; [apply dfieldb_ok | exact H].
+Qed.
+
+Definition tag_freeb (t : str) (ra : option rule) (s : shape) : bool :=
+  match s with SNamed fs => nodupb (t :: map (Gen.field_key ra) (live fs)) | _ => true end.
+
+Definition dvariantb (n : nat) (tg : tagging) (raf : option rule) (v : variant) : bool :=
+  is_none (v_type v) && is_none (v_as v) && negb (v_untagged v) && dshapeb n NotOptional (v_shape v) &&
+  match tg with
+  | Internal t => match v_shape v with STuple _ => false | s => tag_freeb t (variant_rename_all raf v) s end
+  | _ => true
+  end.
+
+Lemma dvariantb_ok n tg raf v : dvariantb n tg raf v = true -> dvariant n tg raf v.
+Proof.
+  unfold dvariantb, dvariant. intros H.
+  repeat match type of H with (_ && _) = true => let H' := fresh "H" in apply andb_true_iff in H as [H H'] end.
+  repeat split; try (apply is_none_eq; assumption); try (apply negb_true_iff; assumption).
+  - apply dshapeb_ok; assumption.
+  - destruct tg; try exact I. destruct (v_shape v); try exact I; try discriminate. cbn [tag_freeb tag_free] in *. apply nodupb_NoDup. assumption.
+Qed.
+
+Definition def_okb (d : typedef) : bool :=
+  let a := attrs_of d in
+  let n := nparams d in
+  is_none (c_type a) && is_none (c_as a) && nodupb (map fst (c_params a)) &&
+  match d with
+  | DStruct a s =>
+      dshapeb n (c_optional_fields a) s &&
+      match c_tag a with
+      | None => true
+      | Some t => match s with SNamed fs => nodupb (t :: map (Gen.field_key (c_rename_all a)) (live fs)) | _ => false end
+      end
+  | DEnum a tg raf vs =>
+      forallb (fun v => v_skip v || dvariantb n tg raf v) vs &&
+      match tg with
+      | Untagged => true
+      | _ => nodupb (map (fun v => Gen.variant_name is_upper (c_rename_all a) v) (live_variants vs))
+      end
+  end.
+
+Lemma def_okb_ok d : def_okb d = true -> def_ok (nparams d) d /\ NoDup (map fst (c_params (attrs_of d))).
+Proof.
+  unfold def_okb, def_ok. intros H.
+  apply andb_true_iff in H as [H Hd]. apply andb_true_iff in H as [H Hps]. apply andb_true_iff in H as [Hty Has].
+  split; [|apply nodupb_NoDup; exact Hps].
+  split; [apply is_none_eq; exact Hty|]. split; [apply is_none_eq; exact Has|]. split; [reflexivity|].
+  destruct d as [a s|a tg raf vs].
+  - apply andb_true_iff in Hd as [Hsh Htag]. split; [apply dshapeb_ok; exact Hsh|].
+    destruct (c_tag a) as [t|]; [|exact I].
+    destruct s as [|fs|fs]; try discriminate. exists fs. split; [reflexivity | apply nodupb_NoDup; exact Htag].
+  - apply andb_true_iff in Hd as [Hvs Hnm]. split.
+    + eapply forallb_Forall'; [|exact Hvs]. intros v Hv Hskip. cbn beta in Hv. rewrite Hskip in Hv. cbn [orb] in Hv. apply dvariantb_ok; exact Hv.
+    + unfold names_distinct. destruct tg; try exact I; apply nodupb_NoDup; exact Hnm.
+Qed.
+End Fragment.
+
 (* ============================ one derived definition ============================================ *)
 Section DeLayer.
 Variable is_upper is_alnum is_numeric : char -> bool.
@@ -342,90 +545,134 @@ Variable sn sf : str -> option tsty.
 Variable dt : rty -> json -> dres.
 Variable F : nat.
 
-Notation plain_field := (plain_field R n).
-Notation plain_shape := (plain_shape R n).
-Notation plain_variant := (plain_variant R n).
+Notation dfield := (dfield R n).
+Notation dshape := (dshape R n).
 Notation ts := (tsubst sn sf).
 Notation mem := (memberb E).
 
-(* beyond `plain`: no `inline`, arrays read as tuples *)
-Definition dfield (fl : field) : Prop := f_inline fl = false /\ small_arr (f_ty fl) = true.
+(* the text of a type of the definition: inline() or name(), at the generator's arguments *)
+Definition tytext (b : bool) (t : rty) : outcome tsty :=
+  if b then inl (rsubst gargs t) else name_of R (rsubst gargs t).
 
-(* what is known of the field types *)
-Hypothesis Hfld : forall fl a j f, plain_field fl -> dfield fl -> name_of R (rsubst gargs (f_ty fl)) = Ok a ->
-  f <= F -> mem f (ts a) j = true -> wf_json j = true -> acc (dt (rsubst sargs (f_ty fl)) j).
+(* what is known of the types of the definition *)
+Hypothesis Hty : forall b t a j f, pmono R n t = true -> small_arr t = true -> (b = true -> n = 0) -> tytext b t = Ok a ->
+  f <= F -> mem f (ts a) j = true -> wf_json j = true -> acc (dt (rsubst sargs t) j).
+(* ... and of Option *)
+Hypothesis Hopt : forall u j, acc (dt u j) -> acc (dt (ROption u) j).
 
-Lemma prop_of_plain ra fl p : plain_field fl -> dfield fl ->
-  prop_of is_alnum is_numeric R inl gargs ra NotOptional fl = Ok p ->
-  p_key (fst p) = Gen.field_key ra fl /\ p_optional (fst p) = false /\ name_of R (rsubst gargs (f_ty fl)) = Ok (snd p).
+Lemma mem_union_null f a j : mem f (TUnion [a; prim "null"]) j = true -> j = JNull \/ exists f', f = S f' /\ mem f' a j = true.
 Proof.
-  intros (Hfl & Hopt & Hty & Hsn & Hsty & Hmono & Hinl0) [Hni _] H. unfold prop_of in H. rewrite Hty, Hni in H.
-  unfold field_ty, field_optional in H. rewrite Hopt in H. cbn [fst snd] in H.
-  apply bind_ok in H as (x & Hx & H). inversion H; subst. cbn [fst snd p_key p_optional]. repeat split. exact Hx.
+  intros H. apply mem_union in H as (f' & u & -> & [<-|[<-|[]]] & Hm); [right; eauto | left; eapply mem_null; exact Hm].
 Qed.
 
-Lemma value_ty_plain fl : plain_field fl -> dfield fl -> value_ty R inl gargs fl = name_of R (rsubst gargs (f_ty fl)).
-Proof. intros (Hfl & Hopt & Hty & _) [Hni _]. unfold value_ty. rewrite Hty, Hni. reflexivity. Qed.
+(* a field read from a present value *)
+Lemma field_present opt fl ra p x f :
+  dfield opt fl -> prop_of is_alnum is_numeric R inl gargs ra opt fl = Ok p ->
+  f <= F -> mem f (ts (snd p)) x = true -> wf_json x = true -> acc (dt (rsubst sargs (f_ty fl)) x).
+Proof.
+  intros (Hfl & Hty0 & Hsty & Hmono & Hinl0 & Hsm & Hfo & Hnp) H Hf Hm Hwf. unfold prop_of in H. rewrite Hty0 in H.
+  unfold field_ty in H. apply bind_ok in H as (a & Ha & H). inversion H; subst p; clear H. cbn [snd] in Hm.
+  assert (Hplain : (if f_inline fl then inl (rsubst gargs (f_ty fl)) else name_of R (rsubst gargs (f_ty fl))) = Ok a ->
+                   acc (dt (rsubst sargs (f_ty fl)) x)).
+  { intros Ha'. eapply (Hty (f_inline fl) (f_ty fl) a x f); eassumption. }
+  assert (Hoption : forall u, f_ty fl = ROption u ->
+                   (if f_inline fl then inl (rsubst gargs u) else name_of R (rsubst gargs u)) = Ok a ->
+                   acc (dt (rsubst sargs (f_ty fl)) x)).
+  { intros u Hu Ha'. rewrite Hu. cbn [rsubst]. apply Hopt. rewrite Hu in Hmono, Hsm. cbn [pmono small_arr] in Hmono, Hsm.
+    eapply (Hty (f_inline fl) u a x f); eassumption. }
+  unfold field_optional in Ha. destruct opt as [|on]; destruct (f_optional fl) as [|fn] eqn:Hfopt; cbn [snd] in Ha.
+  - apply Hplain. exact Ha.
+  - destruct (f_ty fl) as [| u | | | | | | | | | |] eqn:Hft; try discriminate Hfo. cbn [rsubst option_inner] in Ha.
+    destruct fn; [apply Hplain; exact Ha | eapply (Hoption u eq_refl); exact Ha].
+  - destruct (f_ty fl) as [| u | | | | | | | | | |] eqn:Hft; cbn [rsubst option_inner is_option] in Ha;
+      try (apply Hplain; destruct on; exact Ha); try contradiction.
+    destruct on; [apply Hplain; exact Ha | eapply (Hoption u eq_refl); exact Ha].
+  - destruct (f_ty fl) as [| u | | | | | | | | | |] eqn:Hft; try discriminate Hfo. cbn [rsubst option_inner] in Ha.
+    destruct fn; [apply Hplain; exact Ha | eapply (Hoption u eq_refl); exact Ha].
+Qed.
+
+(* a field whose property may be absent is an Option *)
+Lemma field_absent opt fl ra p :
+  dfield opt fl -> prop_of is_alnum is_numeric R inl gargs ra opt fl = Ok p -> p_optional (fst p) = true ->
+  is_option_ty (rsubst sargs (f_serde_ty fl)) = true.
+Proof.
+  intros (Hfl & Hty0 & Hsty & Hmono & Hinl0 & Hsm & Hfo & Hnp) H Hq. unfold prop_of in H. rewrite Hty0 in H.
+  apply bind_ok in H as (a & Ha & H). inversion H; subst p; clear H. cbn [fst p_optional] in Hq. rewrite Hsty.
+  unfold field_optional in Hq. destruct opt as [|on]; destruct (f_optional fl) as [|fn]; cbn [fst] in Hq; try discriminate.
+  - destruct (f_ty fl); try discriminate Hfo. reflexivity.
+  - destruct (f_ty fl); cbn [rsubst is_option] in Hq; try discriminate; try contradiction. reflexivity.
+  - destruct (f_ty fl); try discriminate Hfo. reflexivity.
+Qed.
+
+Lemma prop_of_key ra opt fl p : prop_of is_alnum is_numeric R inl gargs ra opt fl = Ok p -> p_key (fst p) = Gen.field_key ra fl.
+Proof.
+  unfold prop_of. destruct (f_type fl); [intros H; inversion H; reflexivity|]. intros H. apply bind_ok in H as (x & _ & H). inversion H; reflexivity.
+Qed.
 
 (* named fields read from the entries of an object *)
-Lemma named_acc ra : forall fs props es f,
-  Forall plain_field fs -> Forall dfield fs ->
-  omap_list (prop_of is_alnum is_numeric R inl gargs ra NotOptional) (live fs) = Ok props ->
+Lemma named_acc ra opt : forall fs props es f,
+  Forall (dfield opt) fs ->
+  omap_list (prop_of is_alnum is_numeric R inl gargs ra opt) (live fs) = Ok props ->
   f <= F ->
   (forall p t, In (p, t) props -> match assoc (p_key p) es with Some v => mem f (ts t) v = true | None => p_optional p = true end) ->
   (forall k v, assoc k es = Some v -> wf_json v = true) ->
   acc (named_de dt sargs ra fs es).
 Proof.
-  intros fs props es f Hpl Hd Hp Hf Hprops Hwf. unfold named_de. apply dseq_acc.
+  intros fs props es f Hd Hp Hf Hprops Hwf. unfold named_de. apply dseq_acc.
   revert props Hp Hprops. induction fs as [|fl fs IH]; intros props Hp Hprops; cbn [map]; [constructor|].
-  inversion Hpl as [|? ? Hpf Hpfs]; subst. inversion Hd as [|? ? Hdf Hdfs]; subst.
+  inversion Hd as [|? ? Hdf Hdfs]; subst.
   unfold live in Hp. cbn [filter] in Hp. destruct (f_skip fl) eqn:Hskip; cbn [negb] in Hp.
   - constructor; [apply acc_ok | eapply IH; eassumption].
   - cbn [omap_list] in Hp. apply bind_ok in Hp as (p & Hpp & Hp). apply bind_ok in Hp as (ps & Hps & Hp). inversion Hp; subst; clear Hp.
-    destruct (prop_of_plain ra fl p Hpf Hdf Hpp) as (Hk & Ho & Hn).
-    constructor; [|eapply IH; [assumption | assumption | exact Hps | intros p0 t0 Hin; apply Hprops; right; exact Hin]].
+    constructor; [|eapply IH; [assumption | exact Hps | intros p0 t0 Hin; apply Hprops; right; exact Hin]].
     change (Serde.field_key ra fl) with (Gen.field_key ra fl).
     specialize (Hprops (fst p) (snd p)). rewrite <- surjective_pairing in Hprops. specialize (Hprops (or_introl eq_refl)).
-    rewrite Hk in Hprops. destruct (assoc (Gen.field_key ra fl) es) as [x|] eqn:Ha.
-    + pose proof Hpf as Hpf0. destruct Hpf as (Hfl & Hopt & Hty & Hsn & Hsty & Hmono & Hinl0). rewrite Hsty.
-      eapply Hfld; [exact Hpf0 | exact Hdf | exact Hn | exact Hf | exact Hprops | eapply Hwf; exact Ha].
-    + rewrite Ho in Hprops. discriminate.
+    rewrite (prop_of_key ra opt fl p Hpp) in Hprops. destruct (assoc (Gen.field_key ra fl) es) as [x|] eqn:Ha.
+    + pose proof Hdf as (_ & _ & Hsty & _). rewrite Hsty.
+      eapply field_present; [exact Hdf | exact Hpp | exact Hf | exact Hprops | eapply Hwf; exact Ha].
+    + rewrite (field_absent opt fl ra p Hdf Hpp Hprops). apply acc_ok.
 Qed.
 
+Lemma value_ty_d opt fl : dfield opt fl -> value_ty R inl gargs fl = tytext (f_inline fl) (f_ty fl).
+Proof. intros (Hfl & Hty0 & _). unfold value_ty, tytext. rewrite Hty0. reflexivity. Qed.
+
 (* the items of a tuple *)
-Lemma tuple_acc : forall fs tys l f,
-  Forall plain_field fs -> Forall dfield fs ->
+Lemma tuple_acc opt : forall fs tys l f,
+  Forall (dfield opt) fs ->
   omap_list (value_ty R inl gargs) (live fs) = Ok tys -> f <= F ->
   forall2b (mem f) (map ts tys) l = true -> (forall y, In y l -> wf_json y = true) ->
   exists rs, tuple_de dt sargs fs l = Some rs /\ Forall acc rs.
 Proof.
-  induction fs as [|fl fs IH]; intros tys l f Hpl Hd Hp Hf Hm Hwf.
+  induction fs as [|fl fs IH]; intros tys l f Hd Hp Hf Hm Hwf.
   - cbn in Hp. inversion Hp; subst. destruct l; [|discriminate]. exists []. split; [reflexivity | constructor].
-  - inversion Hpl as [|? ? Hpf Hpfs]; subst. inversion Hd as [|? ? Hdf Hdfs]; subst.
+  - inversion Hd as [|? ? Hdf Hdfs]; subst.
     unfold live in Hp. cbn [filter] in Hp. cbn [tuple_de]. destruct (f_skip fl) eqn:Hskip; cbn [negb] in Hp.
-    + destruct (IH tys l f Hpfs Hdfs Hp Hf Hm Hwf) as (rs & -> & Hacc). eexists. split; [reflexivity|]. constructor; [apply acc_ok | exact Hacc].
+    + destruct (IH tys l f Hdfs Hp Hf Hm Hwf) as (rs & -> & Hacc). eexists. split; [reflexivity|]. constructor; [apply acc_ok | exact Hacc].
     + cbn [omap_list] in Hp. apply bind_ok in Hp as (a & Ha & Hp). apply bind_ok in Hp as (tys' & Htys & Hp). inversion Hp; subst; clear Hp.
       cbn [map] in Hm. destruct l as [|x l]; [discriminate|]. cbn [forall2b] in Hm. apply andb_true_iff in Hm as [H1 H2].
-      destruct (IH tys' l f Hpfs Hdfs Htys Hf H2 (fun y Hy => Hwf y (or_intror Hy))) as (rs & -> & Hacc).
+      destruct (IH tys' l f Hdfs Htys Hf H2 (fun y Hy => Hwf y (or_intror Hy))) as (rs & -> & Hacc).
       eexists. split; [reflexivity|]. constructor; [|exact Hacc].
-      rewrite (value_ty_plain fl Hpf Hdf) in Ha.
-      pose proof Hpf as Hpf0. destruct Hpf as (Hfl & Hopt & Hty & Hsn & Hsty & Hmono & Hinl0). rewrite Hsty.
-      eapply Hfld; [exact Hpf0 | exact Hdf | exact Ha | exact Hf | exact H1 | apply Hwf; left; reflexivity].
+      rewrite (value_ty_d opt fl Hdf) in Ha.
+      pose proof Hdf as (_ & _ & Hsty & Hmono & Hinl0 & Hsm & _). rewrite Hsty.
+      eapply (Hty (f_inline fl) (f_ty fl) a x f); [exact Hmono | exact Hsm | exact Hinl0 | exact Ha | exact Hf | exact H1 | apply Hwf; left; reflexivity].
 Qed.
 
-Lemma is_flat_plain' fl : plain_field fl -> is_flat fl = false.
+Lemma is_flat_d opt fl : dfield opt fl -> is_flat fl = false.
 Proof. intros (Hf & _). unfold is_flat. rewrite Hf. reflexivity. Qed.
 
+Lemma live_d opt fs : Forall (dfield opt) fs -> Forall (dfield opt) (live fs).
+Proof. intros H. unfold live. rewrite Forall_forall in *. intros x Hx. apply H. eapply filter_incl_in; exact Hx. Qed.
+
 (* the generated type of a named shape with at least one field or a tag *)
-Lemma named_gen ra tag fs r : Forall plain_field fs -> (fs <> [] \/ tag <> None) ->
-  shape_gen is_alnum is_numeric R inl flt gargs ra NotOptional tag (SNamed fs) = Ok r ->
-  exists props, omap_list (prop_of is_alnum is_numeric R inl gargs ra NotOptional) (live fs) = Ok props /\
+Lemma named_gen ra opt tag fs r : Forall (dfield opt) fs -> (fs <> [] \/ tag <> None) ->
+  shape_gen is_alnum is_numeric R inl flt gargs ra opt tag (SNamed fs) = Ok r ->
+  exists props, omap_list (prop_of is_alnum is_numeric R inl gargs ra opt) (live fs) = Ok props /\
     fst r = TMerged (TObj OStruct (match tag with Some (t, nm) => (quoted_head t, TLit nm) :: props | None => props end)) /\
     exists y, snd r = Some y.
 Proof.
   intros Hpl Hne Hg. cbn [shape_gen] in Hg.
-  assert (Hg' : bind (omap_list (prop_of is_alnum is_numeric R inl gargs ra NotOptional) (filter (fun fl => negb (is_flat fl)) (live fs))) (fun props =>
-          bind (omap_list (fun fl => flt (field_ty gargs NotOptional fl)) (filter is_flat (live fs))) (fun flats =>
+  assert (Hg' : bind (omap_list (prop_of is_alnum is_numeric R inl gargs ra opt) (filter (fun fl => negb (is_flat fl)) (live fs))) (fun props =>
+          bind (omap_list (fun fl => flt (field_ty gargs opt fl)) (filter is_flat (live fs))) (fun flats =>
           let props := match tag with Some (t, n0) => (quoted_head t, TLit n0) :: props | None => props end in
           let obj := TObj OStruct props in
           match props, flats with
@@ -437,65 +684,62 @@ Proof.
   { destruct fs as [|f0 fs0]; [|exact Hg]. destruct tag; [exact Hg | destruct Hne as [H|H]; contradiction]. }
   clear Hg.
   rewrite (filter_all (fun fl => negb (is_flat fl)) (live fs)) in Hg'
-    by (intros x Hx; rewrite (is_flat_plain' x); [reflexivity | pose proof (live_plain R n _ Hpl) as Hl; rewrite Forall_forall in Hl; auto]).
+    by (intros x Hx; rewrite (is_flat_d opt x); [reflexivity | pose proof (live_d opt _ Hpl) as Hl; rewrite Forall_forall in Hl; auto]).
   rewrite (filter_none is_flat (live fs)) in Hg'
-    by (intros x Hx; apply is_flat_plain'; pose proof (live_plain R n _ Hpl) as Hl; rewrite Forall_forall in Hl; auto).
+    by (intros x Hx; apply (is_flat_d opt); pose proof (live_d opt _ Hpl) as Hl; rewrite Forall_forall in Hl; auto).
   apply bind_ok in Hg' as (props & Hp & Hg). cbn [omap_list bind] in Hg. exists props. split; [exact Hp|].
   destruct tag as [[t nm]|]; [inversion Hg; split; [reflexivity | eexists; reflexivity] | destruct props; inversion Hg; (split; [reflexivity | eexists; reflexivity])].
 Qed.
 
-Lemma props_keys ra : forall fs props, Forall plain_field fs -> Forall dfield fs ->
-  omap_list (prop_of is_alnum is_numeric R inl gargs ra NotOptional) (live fs) = Ok props ->
+Lemma props_keys ra opt : forall fs props,
+  omap_list (prop_of is_alnum is_numeric R inl gargs ra opt) (live fs) = Ok props ->
   map (fun p => p_key (fst p)) props = map (Gen.field_key ra) (live fs).
 Proof.
-  intros fs props Hpl Hd Hp. apply omap_list_ok in Hp.
-  assert (Hl : Forall (fun fl => plain_field fl /\ dfield fl) (live fs)).
-  { apply Forall_forall. intros x Hx. unfold live in Hx. apply filter_In in Hx as [Hx _]. rewrite Forall_forall in Hpl, Hd. auto. }
-  induction Hp as [|fl p fs' ps Hfp _ IH]; [reflexivity|]. inversion Hl as [|? ? [H1 H2] Hl']; subst.
-  cbn [map]. f_equal; [|apply IH; exact Hl']. apply (prop_of_plain ra fl p H1 H2 Hfp).
+  intros fs props Hp. apply omap_list_ok in Hp.
+  induction Hp as [|fl p fs' ps Hfp _ IH]; [reflexivity|]. cbn [map]. f_equal; [|exact IH]. apply (prop_of_key ra opt fl p Hfp).
 Qed.
 
 (* the content of a struct / a variant *)
-Lemma shape_acc sq ra s r j f :
-  plain_shape s -> Forall dfield (shape_fields s) ->
-  shape_gen is_alnum is_numeric R inl flt gargs ra NotOptional None s = Ok r ->
+Lemma shape_acc sq ra opt s r j f :
+  dshape opt s ->
+  shape_gen is_alnum is_numeric R inl flt gargs ra opt None s = Ok r ->
   f <= F -> mem f (ts (fst r)) j = true -> wf_json j = true ->
   acc (shape_de dt sq sargs ra s j).
 Proof.
-  intros Hpl Hd Hg Hf Hm Hwf. destruct s as [|fs|fs]; cbn [shape_fields] in Hd.
+  intros Hd Hg Hf Hm Hwf. destruct s as [|fs|fs].
   - cbn in Hg. inversion Hg; subst. cbn [fst tsubst] in Hm. apply mem_null in Hm. subst. apply acc_ok.
   - destruct fs as [|fl [|f2 fs]].
     + cbn in Hg. inversion Hg; subst. cbn [fst tsubst] in Hm. apply mem_neverarr in Hm. subst. cbn. apply acc_ok.
-    + destruct Hpl as [Hpf Hsk]. inversion Hd as [|? ? Hdf _]; subst. cbn [shape_gen] in Hg. rewrite Hsk in Hg.
-      apply bind_ok in Hg as (a & Ha & Hg). inversion Hg; subst. cbn [fst] in Hm. rewrite (value_ty_plain fl Hpf Hdf) in Ha.
+    + destruct Hd as [Hdf Hsk]. cbn [shape_gen] in Hg. rewrite Hsk in Hg.
+      apply bind_ok in Hg as (a & Ha & Hg). inversion Hg; subst. cbn [fst] in Hm. rewrite (value_ty_d opt fl Hdf) in Ha.
       cbn [shape_de]. apply dbind_acc; [|intros; apply acc_ok].
-      pose proof Hpf as Hpf0. destruct Hpf as (Hfl & Hopt & Hty & Hsn & Hsty & Hmono & Hinl0). rewrite Hsty.
-      eapply Hfld; [exact Hpf0 | exact Hdf | exact Ha | exact Hf | exact Hm | exact Hwf].
-    + cbn [Sem_derive_proofs.plain_shape] in Hpl. cbn [shape_gen] in Hg. apply bind_ok in Hg as (tys & Htys & Hg). inversion Hg; subst.
+      pose proof Hdf as (_ & _ & Hsty & Hmono & Hinl0 & Hsm & _). rewrite Hsty.
+      eapply (Hty (f_inline fl) (f_ty fl) a j f); eassumption.
+    + cbn [De_proofs.dshape] in Hd. cbn [shape_gen] in Hg. apply bind_ok in Hg as (tys & Htys & Hg). inversion Hg; subst.
       cbn [fst tsubst] in Hm. apply mem_tuple in Hm as (f' & l & -> & -> & Hm). cbn [shape_de].
-      destruct (tuple_acc (fl :: f2 :: fs) tys l f' Hpl Hd Htys ltac:(lia) Hm (fun y Hy => wf_arr _ _ Hwf Hy)) as (rs & -> & Hacc).
+      destruct (tuple_acc opt (fl :: f2 :: fs) tys l f' Hd Htys ltac:(lia) Hm (fun y Hy => wf_arr _ _ Hwf Hy)) as (rs & -> & Hacc).
       apply dseq_acc. exact Hacc.
-  - cbn [Sem_derive_proofs.plain_shape] in Hpl. destruct fs as [|fl fs'].
+  - cbn [De_proofs.dshape] in Hd. destruct fs as [|fl fs'].
     + cbn in Hg. inversion Hg; subst. cbn [fst tsubst] in Hm. apply mem_recnever in Hm. subst. cbn. apply acc_ok.
     + assert (Hne : fl :: fs' <> [] \/ @None (str * str) <> None) by (left; discriminate).
-      destruct (named_gen ra None (fl :: fs') r Hpl Hne Hg) as (props & Hp & Hr & _). rewrite Hr in Hm.
+      destruct (named_gen ra opt None (fl :: fs') r Hd Hne Hg) as (props & Hp & Hr & _). rewrite Hr in Hm.
       cbn [tsubst] in Hm. apply mem_merged in Hm as (f1 & -> & Hm). apply mem_obj in Hm as (f2 & l & -> & -> & Hm). cbn [shape_de].
-      eapply (named_acc ra (fl :: fs') props l f2 Hpl Hd Hp); [lia | | intros k v Hk; eapply wf_obj_assoc; eassumption].
+      eapply (named_acc ra opt (fl :: fs') props l f2 Hd Hp); [lia | | intros k v Hk; eapply wf_obj_assoc; eassumption].
       intros p t Hin. apply (alt_member_props _ _ _ _ Hm p (ts t)). apply in_map_iff. exists (p, t). split; [reflexivity | exact Hin].
 Qed.
 
 (* a named shape carrying a tag property: the tag is there, and the fields are read from the entries — all of them
    (struct-level tag) or those left when the tag is taken out (struct variant of an internally tagged enum) *)
-Lemma tagged_named_acc ra fs t nm r j f :
-  Forall plain_field fs -> Forall dfield fs -> NoDup (t :: map (Gen.field_key ra) (live fs)) ->
-  shape_gen is_alnum is_numeric R inl flt gargs ra NotOptional (Some (t, nm)) (SNamed fs) = Ok r ->
+Lemma tagged_named_acc ra opt fs t nm r j f :
+  Forall (dfield opt) fs -> NoDup (t :: map (Gen.field_key ra) (live fs)) ->
+  shape_gen is_alnum is_numeric R inl flt gargs ra opt (Some (t, nm)) (SNamed fs) = Ok r ->
   f <= F -> mem f (ts (fst r)) j = true -> wf_json j = true ->
   exists es, j = JObj es /\ assoc t es = Some (JStr nm) /\
     acc (named_de dt sargs ra fs es) /\ acc (named_de dt sargs ra fs (remove_key t es)).
 Proof.
-  intros Hpl Hd Hnd Hg Hf Hm Hwf.
+  intros Hd Hnd Hg Hf Hm Hwf.
   assert (Hne : fs <> [] \/ Some (t, nm) <> None) by (right; discriminate).
-  destruct (named_gen ra (Some (t, nm)) fs r Hpl Hne Hg) as (props & Hp & Hr & _). rewrite Hr in Hm.
+  destruct (named_gen ra opt (Some (t, nm)) fs r Hd Hne Hg) as (props & Hp & Hr & _). rewrite Hr in Hm.
   cbn [tsubst map fst snd] in Hm. apply mem_merged in Hm as (f1 & -> & Hm). apply mem_obj in Hm as (f2 & l & -> & -> & Hm).
   exists l. split; [reflexivity|].
   pose proof (alt_member_props _ _ _ _ Hm (quoted_head t) (TLit nm) (or_introl eq_refl)) as Ht. cbn [quoted_head p_key p_optional] in Ht.
@@ -503,15 +747,16 @@ Proof.
   assert (Hprops : forall p t0, In (p, t0) props -> match assoc (p_key p) l with Some v => mem f2 (ts t0) v = true | None => p_optional p = true end).
   { intros p t0 Hin. apply (alt_member_props _ _ _ _ Hm p (ts t0)). right. apply in_map_iff. exists (p, t0). split; [reflexivity | exact Hin]. }
   split.
-  - eapply (named_acc ra fs props l f2 Hpl Hd Hp); [lia | exact Hprops | intros k v Hk; eapply wf_obj_assoc; eassumption].
-  - eapply (named_acc ra fs props (remove_key t l) f2 Hpl Hd Hp); [lia | | apply wf_remove_key; exact Hwf].
+  - eapply (named_acc ra opt fs props l f2 Hd Hp); [lia | exact Hprops | intros k v Hk; eapply wf_obj_assoc; eassumption].
+  - eapply (named_acc ra opt fs props (remove_key t l) f2 Hd Hp); [lia | | apply wf_remove_key; exact Hwf].
     intros p t0 Hin. rewrite assoc_remove_key; [apply Hprops; exact Hin|].
-    intros Heq. inversion Hnd as [|? ? Hnin _]; subst. apply Hnin. rewrite <- (props_keys ra fs props Hpl Hd Hp).
+    intros Heq. inversion Hnd as [|? ? Hnin _]; subst. apply Hnin. rewrite <- (props_keys ra opt fs props Hp).
     change (p_key p) with ((fun q : phead * tsty => p_key (fst q)) (p, t0)). apply in_map. exact Hin.
 Qed.
 
 (* ---- variants ------------------------------------------------------------------------------------ *)
 Notation vname a v := (Gen.variant_name is_upper (c_rename_all a) v).
+Notation dvariant := (dvariant R n).
 
 Lemma find_variant_live a : forall vs v i,
   NoDup (map (fun v => vname a v) (live_variants vs)) -> In v vs -> v_skip v = false ->
@@ -541,8 +786,8 @@ Proof.
     + destruct Hin as [->|Hin]; [exfalso; apply Hacc; exact Hd|]. eapply IH; eassumption.
 Qed.
 
-(* what the generator writes for a plain variant, by representation *)
-Lemma variant_gen_plain a tg raf v x : plain_variant tg v ->
+(* what the generator writes for a variant of the fragment, by representation *)
+Lemma variant_gen_plain a tg raf v x : dvariant tg raf v ->
   variant_gen is_upper is_alnum is_numeric R inl flt gargs a tg raf v = Ok x ->
   let name := vname a v in
   let ra := variant_rename_all raf v in
@@ -567,7 +812,7 @@ Lemma variant_gen_plain a tg raf v x : plain_variant tg v ->
   | Untagged => exists vt, sg None = Ok vt /\ x = fst vt
   end.
 Proof.
-  intros (Hty & Has & Hun & Hsh & Htg) Hg. cbv zeta. unfold variant_gen in Hg. rewrite Hun in Hg. rewrite Has, Hty in Hg.
+  intros (Hty0 & Has & Hun & Hsh & Htg) Hg. cbv zeta. unfold variant_gen in Hg. rewrite Hun in Hg. rewrite Has, Hty0 in Hg.
   set (name := vname a v) in *. set (ra := variant_rename_all raf v) in *.
   assert (Hlone : match v_shape v with STuple [f] => f_skip f | _ => false end = false).
   { destruct (v_shape v) as [|[|f [|? ?]]|]; try reflexivity. cbn in Hsh. tauto. }
@@ -583,7 +828,7 @@ Proof.
     + cbn in Hvt. inversion Hvt; subst. cbn [snd] in Hg. inversion Hg; reflexivity.
     + cbn [is_named andb negb] in Hvt. exists vt. split; [exact Hvt|].
       assert (Hne : fs <> [] \/ Some (t, name) <> None) by (right; discriminate).
-      destruct (named_gen ra (Some (t, name)) fs vt Hsh Hne Hvt) as (props & _ & _ & y & Hy). rewrite Hy in Hg. inversion Hg; reflexivity.
+      destruct (named_gen ra NotOptional (Some (t, name)) fs vt Hsh Hne Hvt) as (props & _ & _ & y & Hy). rewrite Hy in Hg. inversion Hg; reflexivity.
   - cbn [andb] in Hvt. replace (match is_named (v_shape v) && negb false with true => None | false => None end) with (@None (str * str)) in Hvt by (destruct (is_named (v_shape v)); reflexivity).
     destruct (v_shape v) as [|fs|fs] eqn:Hshape.
     + inversion Hg; reflexivity.
@@ -601,7 +846,7 @@ Proof.
   destruct (IH Hin) as (x & Hx & Hp). exists x. split; [right; exact Hx|exact Hp].
 Qed.
 
-(* the tag property and, for representations with one, the content property of a variant object *)
+(* the tag property of a variant object *)
 Lemma tag_entry f t name rest l :
   alt_member (mem f) ((quoted_head t, TLit name) :: rest, []) l = true -> assoc t l = Some (JStr name).
 Proof.
@@ -609,19 +854,15 @@ Proof.
   cbn [quoted_head p_key p_optional] in Ht. destruct (assoc t l) as [tv|]; [|discriminate]. apply mem_lit in Ht. subst. reflexivity.
 Qed.
 
-Definition names_distinct (a : cattrs) (tg : tagging) (vs : list variant) : Prop :=
-  match tg with Untagged => True | _ => NoDup (map (fun v => vname a v) (live_variants vs)) end.
-
 Lemma enum_acc a tg raf vs r j f :
   c_type a = None -> c_as a = None ->
-  Forall (fun v => v_skip v = false -> plain_variant tg v /\ variant_keys_distinct tg (variant_rename_all raf v) (v_shape v)) vs ->
-  Forall (fun v => Forall dfield (shape_fields (v_shape v))) vs ->
-  names_distinct a tg vs ->
+  Forall (fun v => v_skip v = false -> dvariant tg raf v) vs ->
+  names_distinct is_upper a tg vs ->
   def_body is_upper is_alnum is_numeric R inl flt (DEnum a tg raf vs) gargs = Ok r ->
   f <= F -> mem f (ts (fst r)) j = true -> wf_json j = true ->
   acc (def_de is_upper dt (DEnum a tg raf vs) sargs j).
 Proof.
-  intros Hty Has Hpl Hd Hnames Hg Hf Hm Hwf. unfold def_body in Hg. cbn [attrs_of] in Hg. rewrite Hty, Has in Hg.
+  intros Hty0 Has Hpl Hnames Hg Hf Hm Hwf. unfold def_body in Hg. cbn [attrs_of] in Hg. rewrite Hty0, Has in Hg.
   destruct vs as [|v0 vs0]; [inversion Hg; subst; cbn [fst tsubst] in Hm; rewrite mem_never in Hm; discriminate|].
   remember (v0 :: vs0) as vs eqn:Hvs. clear Hvs v0 vs0.
   apply bind_ok in Hg as (l & Hl & Hg). apply omap_list_ok in Hl.
@@ -629,9 +870,9 @@ Proof.
   remember (x0 :: l0) as l eqn:Hleq. inversion Hg; subst r; clear Hg. cbn [fst tsubst] in Hm.
   apply mem_union in Hm as (f1 & u & -> & Hu & Hm). apply in_map_iff in Hu as (x & <- & Hx).
   destruct (Forall2_in_r' _ _ _ x Hl Hx) as (v & Hv & Hgen). unfold live_variants in Hv. apply filter_In in Hv as [Hin Hsk].
-  apply negb_true_iff in Hsk. rewrite Forall_forall in Hpl, Hd. destruct (Hpl v Hin Hsk) as [Hpv Hkd]. specialize (Hd v Hin).
+  apply negb_true_iff in Hsk. rewrite Forall_forall in Hpl. pose proof (Hpl v Hin Hsk) as Hpv.
   pose proof (variant_gen_plain a tg raf v x Hpv Hgen) as Hx'. cbv zeta in Hx'.
-  pose proof Hpv as (_ & _ & _ & Hsh & _).
+  pose proof Hpv as (_ & _ & _ & Hsh & Hkd).
   change (variant_rename_all raf v) with (variant_ra raf v) in *.
   destruct tg as [|t|t c|]; cbn [def_de].
   - (* externally tagged *)
@@ -645,7 +886,7 @@ Proof.
       { apply single_entry; [apply wf_obj_nodup; exact Hwf | | exact Hac]. intros e He.
         destruct (alt_member_keys _ _ _ Hm e He) as (p & t' & [Heq|[]] & Hk). inversion Heq; subst. symmetry. exact Hk. }
       subst es. rewrite Hfind. apply dbind_acc; [|intros; apply acc_ok]. rewrite Hshape.
-      eapply shape_acc; [exact Hsh | exact Hd | exact Hvt | | exact Hc | eapply wf_obj_in; [exact Hwf | left; reflexivity]]. lia.
+      eapply shape_acc; [exact Hsh | exact Hvt | | exact Hc | eapply wf_obj_in; [exact Hwf | left; reflexivity]]. lia.
     + destruct Hx' as (vt & Hvt & ->). cbn [tsubst map fst snd] in Hm. apply mem_obj in Hm as (f2 & es & -> & -> & Hm).
       pose proof (alt_member_props _ _ _ _ Hm (quoted_head (vname a v)) (ts (fst vt)) (or_introl eq_refl)) as Hc. cbn [quoted_head p_key p_optional] in Hc.
       destruct (assoc (vname a v) es) as [cv|] eqn:Hac; [|discriminate].
@@ -653,16 +894,15 @@ Proof.
       { apply single_entry; [apply wf_obj_nodup; exact Hwf | | exact Hac]. intros e He.
         destruct (alt_member_keys _ _ _ Hm e He) as (p & t' & [Heq|[]] & Hk). inversion Heq; subst. symmetry. exact Hk. }
       subst es. rewrite Hfind. apply dbind_acc; [|intros; apply acc_ok]. rewrite Hshape.
-      eapply shape_acc; [exact Hsh | exact Hd | exact Hvt | | exact Hc | eapply wf_obj_in; [exact Hwf | left; reflexivity]]. lia.
+      eapply shape_acc; [exact Hsh | exact Hvt | | exact Hc | eapply wf_obj_in; [exact Hwf | left; reflexivity]]. lia.
   - (* internally tagged *)
     destruct (find_variant_live a vs v 0 Hnames Hin Hsk) as (i' & Hfind).
     destruct (v_shape v) as [|fs|fs] eqn:Hshape; [| contradiction |].
     + subst x. cbn [tsubst map fst snd] in Hm. apply mem_obj in Hm as (f2 & es & -> & -> & Hm).
       rewrite (tag_entry _ _ _ _ _ Hm), Hfind, Hshape. apply acc_ok.
-    + destruct Hx' as (vt & Hvt & ->). cbn [variant_keys_distinct keys_distinct app] in Hkd. cbn [shape_fields] in Hd.
-      cbn [Sem_derive_proofs.plain_shape] in Hsh.
+    + destruct Hx' as (vt & Hvt & ->). cbn [tag_free] in Hkd. cbn [De_proofs.dshape] in Hsh.
       assert (Hf1 : f1 <= F) by lia.
-      destruct (tagged_named_acc (variant_ra raf v) fs t (vname a v) vt j f1 Hsh Hd Hkd Hvt Hf1 Hm Hwf) as (es & -> & Hat & _ & Hacc).
+      destruct (tagged_named_acc (variant_ra raf v) NotOptional fs t (vname a v) vt j f1 Hsh Hkd Hvt Hf1 Hm Hwf) as (es & -> & Hat & _ & Hacc).
       rewrite Hat, Hfind, Hshape. apply dbind_acc; [|intros; apply acc_ok]. cbn [shape_de]. exact Hacc.
   - (* adjacently tagged *)
     destruct (find_variant_live a vs v 0 Hnames Hin Hsk) as (i' & Hfind).
@@ -673,19 +913,19 @@ Proof.
       rewrite (tag_entry _ _ _ _ _ Hm), Hfind, Hshape.
       pose proof (alt_member_props _ _ _ _ Hm (quoted_head c) (ts (fst vt)) (or_intror (or_introl eq_refl))) as Hc. cbn [quoted_head p_key p_optional] in Hc.
       destruct (assoc c es) as [cv|] eqn:Hac; [|discriminate]. apply dbind_acc; [|intros; apply acc_ok].
-      eapply shape_acc; [exact Hsh | exact Hd | exact Hvt | | exact Hc | eapply wf_obj_assoc; eassumption]. lia.
+      eapply shape_acc; [exact Hsh | exact Hvt | | exact Hc | eapply wf_obj_assoc; eassumption]. lia.
     + destruct Hx' as (vt & Hvt & ->). cbn [tsubst map fst snd] in Hm. apply mem_obj in Hm as (f2 & es & -> & -> & Hm).
       rewrite (tag_entry _ _ _ _ _ Hm), Hfind, Hshape.
       pose proof (alt_member_props _ _ _ _ Hm (quoted_head c) (ts (fst vt)) (or_intror (or_introl eq_refl))) as Hc. cbn [quoted_head p_key p_optional] in Hc.
       destruct (assoc c es) as [cv|] eqn:Hac; [|discriminate]. apply dbind_acc; [|intros; apply acc_ok].
-      eapply shape_acc; [exact Hsh | exact Hd | exact Hvt | | exact Hc | eapply wf_obj_assoc; eassumption]. lia.
+      eapply shape_acc; [exact Hsh | exact Hvt | | exact Hc | eapply wf_obj_assoc; eassumption]. lia.
   - (* untagged *)
     destruct Hx' as (vt & Hvt & ->). eapply untagged_acc; [exact Hin | exact Hsk|].
-    eapply shape_acc; [exact Hsh | exact Hd | exact Hvt | | exact Hm | exact Hwf]. lia.
+    eapply shape_acc; [exact Hsh | exact Hvt | | exact Hm | exact Hwf]. lia.
 Qed.
 
 Lemma struct_acc a s r j f :
-  c_type a = None -> c_as a = None -> c_optional_fields a = NotOptional -> plain_shape s -> Forall dfield (shape_fields s) ->
+  c_type a = None -> c_as a = None -> dshape (c_optional_fields a) s ->
   match c_tag a with
   | None => True
   | Some t => exists fs, s = SNamed fs /\ NoDup (t :: map (Gen.field_key (c_rename_all a)) (live fs))
@@ -694,38 +934,29 @@ Lemma struct_acc a s r j f :
   f <= F -> mem f (ts (fst r)) j = true -> wf_json j = true ->
   acc (def_de is_upper dt (DStruct a s) sargs j).
 Proof.
-  intros Hty Has Hopt Hsh Hd Htag Hg Hf Hm Hwf. unfold def_body in Hg. cbn [attrs_of] in Hg. rewrite Hty, Has, Hopt in Hg. cbn [def_de].
+  intros Hty0 Has Hsh Htag Hg Hf Hm Hwf. unfold def_body in Hg. cbn [attrs_of] in Hg. rewrite Hty0, Has in Hg. cbn [def_de].
   destruct (c_tag a) as [t|].
-  - destruct Htag as (fs & -> & Hnd). cbn [shape_fields] in Hd. cbn [Sem_derive_proofs.plain_shape] in Hsh.
-    destruct (tagged_named_acc (c_rename_all a) fs t _ r j f Hsh Hd Hnd Hg Hf Hm Hwf) as (es & -> & _ & Hacc & _).
+  - destruct Htag as (fs & -> & Hnd). cbn [De_proofs.dshape] in Hsh.
+    destruct (tagged_named_acc (c_rename_all a) (c_optional_fields a) fs t _ r j f Hsh Hnd Hg Hf Hm Hwf) as (es & -> & _ & Hacc & _).
     cbn [shape_de]. exact Hacc.
   - eapply shape_acc; eassumption.
 Qed.
 
-Definition ddef_ok (d : typedef) : Prop :=
-  match d with
-  | DStruct a s => Forall dfield (shape_fields s)
-  | DEnum a tg raf vs => Forall (fun v => Forall dfield (shape_fields (v_shape v))) vs /\ names_distinct a tg vs
-  end.
-
 Lemma def_acc d r j f :
-  plain_def R n d -> ddef_ok d ->
+  def_ok is_upper R n d ->
   def_body is_upper is_alnum is_numeric R inl flt d gargs = Ok r ->
   f <= F -> mem f (ts (fst r)) j = true -> wf_json j = true ->
   acc (def_de is_upper dt d sargs j).
 Proof.
-  intros (Hty & Has & Hps & Hd) Hok Hg Hf Hm Hwf. destruct d as [a s|a tg raf vs]; cbn [attrs_of] in *.
-  - destruct Hd as (Hopt & Hsh & Htag). eapply struct_acc; try eassumption.
-    destruct (c_tag a); [exact Htag | exact I].
-  - destruct Hok as [Hdf Hnm]. eapply enum_acc; eassumption.
+  intros (Hty0 & Has & Hps & Hd) Hg Hf Hm Hwf. destruct d as [a s|a tg raf vs]; cbn [attrs_of] in *.
+  - destruct Hd as (Hsh & Htag). eapply struct_acc; eassumption.
+  - destruct Hd as [Hvs Hnm]. eapply enum_acc; eassumption.
 Qed.
 End DeLayer.
 
 (* ============================ the knot ========================================================== *)
-Definition dfieldb (fl : field) : bool := negb (f_inline fl) && small_arr (f_ty fl).
-
-Lemma dfieldb_ok fl : dfieldb fl = true -> dfield fl.
-Proof. unfold dfieldb, dfield. intros H. apply andb_true_iff in H as [H1 H2]. apply negb_true_iff in H1. split; assumption. Qed.
+Lemma de_option_acc R dd u j : acc (de_ty R dd u j) -> acc (de_ty R dd (ROption u) j).
+Proof. intros H. cbn [de_ty]. destruct j; try apply acc_ok; (apply dbind_acc; [exact H | intros; apply acc_ok]). Qed.
 
 Section DeKnot.
 Variable is_upper is_alnum is_numeric : char -> bool.
@@ -733,72 +964,114 @@ Variable R : env.
 Variable gf : nat.
 
 Notation gen := (Gen.gen is_upper is_alnum is_numeric R).
+Notation decl_of := (Gen.decl_of is_upper is_alnum is_numeric R).
 Notation mono_ty := (mono_ty R).
 Notation E := (env_of is_upper is_alnum is_numeric R gf).
 
-(* beyond plain_envb: no `inline` fields, arrays of at most ARRAY_TUPLE_LIMIT elements, and the variants of a tagged enum
-   have distinct names on the wire *)
-Definition ddef_okb (d : typedef) : bool :=
-  match d with
-  | DStruct a s => forallb dfieldb (shape_fields s)
-  | DEnum a tg raf vs =>
-      forallb (fun v => forallb dfieldb (shape_fields (v_shape v))) vs &&
-      match tg with
-      | Untagged => true
-      | _ => nodupb (map (fun v => Gen.variant_name is_upper (c_rename_all a) v) (live_variants vs))
-      end
-  end.
+(* every definition is in the fragment, gets a declaration, and declaration names are distinct *)
+Definition de_envb : bool :=
+  forallb (fun p => def_okb is_upper R (snd p) && is_ok (decl_of gf (snd p))) R &&
+  nodupb (map (fun p => ts_ident (snd p)) R).
 
-Definition de_envb : bool := forallb (fun p => ddef_okb (snd p)) R.
-
-Lemma ddef_okb_ok d : ddef_okb d = true -> ddef_ok is_upper d.
-Proof.
-  destruct d as [a s|a tg raf vs]; cbn [ddef_okb ddef_ok]; intros H.
-  - eapply forallb_Forall'; [apply dfieldb_ok | exact H].
-  - apply andb_true_iff in H as [H1 H2]. split.
-    + eapply forallb_Forall'; [|exact H1]. intros v Hv. eapply forallb_Forall'; [apply dfieldb_ok | exact Hv].
-    + unfold names_distinct. destruct tg; try exact I; apply nodupb_NoDup; exact H2.
-Qed.
-
-Hypothesis Henv : plain_envb is_upper is_alnum is_numeric R gf = true.
 Hypothesis Hde : de_envb = true.
 
-Lemma de_env_facts id d : lookup R id = Some d -> ddef_ok is_upper d.
+Lemma de_env_facts id d : lookup R id = Some d ->
+  def_ok is_upper R (nparams d) d /\ NoDup (map fst (c_params (attrs_of d))) /\
+  exists dc, dlookup E (ts_ident d) = Some dc /\ decl_of gf d = Ok dc.
 Proof.
-  intros Hlk. apply ddef_okb_ok. unfold de_envb in Hde. rewrite forallb_forall in Hde.
-  exact (Hde (id, d) (lookup_in id d R Hlk)).
+  unfold de_envb in Hde. apply andb_true_iff in Hde as [Hall Hnd].
+  rewrite forallb_forall in Hall. apply nodupb_NoDup in Hnd.
+  intros Hlk. pose proof (lookup_in id d R Hlk) as Hin. specialize (Hall _ Hin) as Hd. cbn [snd] in Hd.
+  apply andb_true_iff in Hd as [Hp _]. destruct (def_okb_ok is_upper R d Hp) as [Hpd Hnp]. split; [exact Hpd|]. split; [exact Hnp|].
+  refine (dlookup_env_of is_upper is_alnum is_numeric R gf R _ Hnd id d Hin).
+  intros p Hp'. specialize (Hall p Hp'). apply andb_true_iff in Hall as [_ H2]. exact H2.
 Qed.
 
 Lemma gen_ok_unfold g d args r : gen g d args = Ok r ->
-  exists g', def_body is_upper is_alnum is_numeric R (lib_inline R (gen g')) (lib_flat R (gen g')) d args = Ok r.
+  exists g', g = S g' /\ def_body is_upper is_alnum is_numeric R (lib_inline R (gen g')) (lib_flat R (gen g')) d args = Ok r.
 Proof. destruct g as [|g']; [cbn; discriminate|]. cbn [Gen.gen]. eauto. Qed.
 
-Theorem member_accepted : forall F n t a j f,
-  F <= n -> f <= F -> mono_ty t = true -> small_arr t = true -> name_of R t = Ok a ->
+(* de's recursion depth: one unit per definition entered; between two reference unfoldings of the membership at most gf
+   definitions are entered through `inline` *)
+Definition PA (F : nat) : Prop := forall n t a j f,
+  F * S gf <= n -> f <= F -> mono_ty t = true -> small_arr t = true -> name_of R t = Ok a ->
   memberb E f a j = true -> wf_json j = true -> acc (de is_upper R n t j).
+Definition PB (F g : nat) : Prop := forall n t a j f,
+  F * S gf + g <= n -> f <= F -> mono_ty t = true -> small_arr t = true -> lib_inline R (gen g) t = Ok a ->
+  memberb E f a j = true -> wf_json j = true -> acc (de is_upper R n t j).
+
+Lemma mem_fuel_pos f t j : memberb E f t j = true -> 1 <= f.
+Proof. destruct f; [discriminate | lia]. Qed.
+
+Lemma PB_from_PA F : PA F -> forall g, PB F g.
+Proof.
+  intros HA. induction g as [|g' IHg]; intros n t a j f Hn Hf Hm Hsm Ha Hmem Hwf; unfold de.
+  - eapply (lib_inline_de R E (SerdeDe.ddef is_upper R n) F (gen 0)); [|exact Hm | exact Hsm | exact Ha | exact Hf | exact Hmem | exact Hwf].
+    intros id d args r j0 f0 _ _ _ _ Hr. cbn in Hr. discriminate.
+  - eapply (lib_inline_de R E (SerdeDe.ddef is_upper R n) F (gen (S g'))); [|exact Hm | exact Hsm | exact Ha | exact Hf | exact Hmem | exact Hwf].
+    clear t a j f Hf Hm Hsm Ha Hmem Hwf.
+    intros id d args r j f Hlk Hlen Hargs Hsargs Hr Hf Hmem Hwf. cbn [Gen.gen] in Hr.
+    destruct (de_env_facts _ _ Hlk) as (Hpd & Hnp & _).
+    pose proof (mem_fuel_pos _ _ _ Hmem) as Hpos.
+    destruct n as [|n1]; [lia|]. change (SerdeDe.ddef is_upper R (S n1)) with (def_de is_upper (de_ty R (SerdeDe.ddef is_upper R n1))).
+    rewrite <- (tsubst_none (fst r)) in Hmem.
+    eapply (def_acc is_upper is_alnum is_numeric R E (lib_inline R (gen g')) (lib_flat R (gen g')) (nparams d) args args
+              (fun _ => None) (fun _ => None) (de_ty R (SerdeDe.ddef is_upper R n1)) F);
+      [| apply de_option_acc | exact Hpd | exact Hr | exact Hf | exact Hmem | exact Hwf].
+    intros b t0 a0 j0 f0 Hpm Hsa Hb Ha0 Hf0 Hm0 Hwf0. rewrite tsubst_none in Hm0.
+    assert (Hmono : mono_ty (rsubst args t0) = true).
+    { apply (pmono_subst R (nparams d) args); [apply Forall_forall; rewrite forallb_forall in Hargs; exact Hargs | exact Hlen | exact Hpm]. }
+    assert (Hsmall : small_arr (rsubst args t0) = true) by (apply small_arr_subst; assumption).
+    unfold tytext in Ha0. destruct b.
+    + eapply (IHg n1 _ a0 j0 f0); [lia | exact Hf0 | exact Hmono | exact Hsmall | exact Ha0 | exact Hm0 | exact Hwf0].
+    + eapply (HA n1 _ a0 j0 f0); [lia | exact Hf0 | exact Hmono | exact Hsmall | exact Ha0 | exact Hm0 | exact Hwf0].
+Qed.
+
+Lemma PA_all : forall F, PA F.
 Proof.
   induction F as [|F1 IH]; intros n t a j f Hn Hf Hm Hsm Ha Hmem Hwf; unfold de.
-  - eapply (lib_de R E (ddef is_upper R n) 0); [|exact Hm | exact Hsm | exact Ha | exact Hf | exact Hmem | exact Hwf].
+  - eapply (lib_de R E (SerdeDe.ddef is_upper R n) 0); [|exact Hm | exact Hsm | exact Ha | exact Hf | exact Hmem | exact Hwf].
     intros id d args l j0 f0 _ _ _ _ _ Hf0 Hmem0 _. assert (f0 = 0) by lia. subst. discriminate.
-  - eapply (lib_de R E (ddef is_upper R n) (S F1)); [|exact Hm | exact Hsm | exact Ha | exact Hf | exact Hmem | exact Hwf].
+  - pose proof (PB_from_PA F1 IH) as IHB.
+    eapply (lib_de R E (SerdeDe.ddef is_upper R n) (S F1)); [|exact Hm | exact Hsm | exact Ha | exact Hf | exact Hmem | exact Hwf].
     clear t a j f Hf Hm Hsm Ha Hmem Hwf.
     intros id d args l j f Hlk Hlen Hargs Hsargs Hl Hf Hmem Hwf.
     destruct f as [|f1]; [discriminate|]. cbn [memberb] in Hmem. unfold unfold_ref in Hmem.
-    destruct (env_facts is_upper is_alnum is_numeric R gf Henv _ _ Hlk) as (Hpd & Hnp & dc & Hdl & Hdc).
+    destruct (de_env_facts _ _ Hlk) as (Hpd & Hnp & dc & Hdl & Hdc).
     rewrite Hdl in Hmem. destruct (plain_decl is_upper is_alnum is_numeric R gf d dc Hdc) as (r & Hr & _ & Hps & Hbody).
     rewrite Hbody in Hmem.
-    destruct n as [|n1]; [lia|]. change (ddef is_upper R (S n1)) with (def_de is_upper (de_ty R (ddef is_upper R n1))).
-    apply gen_ok_unfold in Hr as (g' & Hr).
+    destruct n as [|n1]; [cbn in Hn; lia|]. change (SerdeDe.ddef is_upper R (S n1)) with (def_de is_upper (de_ty R (SerdeDe.ddef is_upper R n1))).
+    apply gen_ok_unfold in Hr as (g' & Hgf & Hr).
     eapply (def_acc is_upper is_alnum is_numeric R E (lib_inline R (gen g')) (lib_flat R (gen g')) (nparams d) args (dummies (attrs_of d))
-              (bind_params (d_params dc) l) (bind_params (d_params dc) l) (de_ty R (ddef is_upper R n1)) F1);
-      [|exact Hpd | eapply de_env_facts; exact Hlk | exact Hr | | exact Hmem | exact Hwf]; [|lia].
-    intros fl a0 j0 f0 Hpf [Hni Hsa] Ha0 Hf0 Hm0 Hwf0.
-    pose proof Hpf as (_ & _ & _ & _ & _ & Hpm & _).
-    assert (Hmono : mono_ty (rsubst args (f_ty fl)) = true).
+              (bind_params (d_params dc) l) (bind_params (d_params dc) l) (de_ty R (SerdeDe.ddef is_upper R n1)) F1);
+      [| apply de_option_acc | exact Hpd | exact Hr | | exact Hmem | exact Hwf]; [|lia].
+    intros b t0 a0 j0 f0 Hpm Hsa Hb Ha0 Hf0 Hm0 Hwf0.
+    assert (Hmono : mono_ty (rsubst args t0) = true).
     { apply (pmono_subst R (nparams d) args); [apply Forall_forall; rewrite forallb_forall in Hargs; exact Hargs | exact Hlen | exact Hpm]. }
-    rewrite dummies_eq in Ha0.
-    eapply (IH n1 (rsubst args (f_ty fl)) (tsubst (bind_params (d_params dc) l) (bind_params (d_params dc) l) a0) j0 f0);
-      [lia | exact Hf0 | exact Hmono | apply small_arr_subst; assumption | | exact Hm0 | exact Hwf0].
-    exact (name_of_tsubst R (nparams d) (map fst (c_params (attrs_of d))) args l (d_params dc) Hnp Hps (map_length _ _) Hl Hlen (f_ty fl) a0 Hpm Ha0).
+    assert (Hsmall : small_arr (rsubst args t0) = true) by (apply small_arr_subst; assumption).
+    assert (Hn1 : F1 * S gf + g' <= n1) by (cbn in Hn; lia).
+    unfold tytext in Ha0. destruct b.
+    + (* inline: only in definitions without parameters *)
+      specialize (Hb eq_refl). unfold nparams in Hb, Hlen. rewrite Hb in Hlen.
+      destruct args; [|discriminate]. assert (Hc : c_params (attrs_of d) = []) by (destruct (c_params (attrs_of d)); [reflexivity | discriminate]).
+      unfold dummies in Ha0. rewrite Hc in Ha0, Hps. cbn [map] in Ha0, Hps.
+      destruct (d_params dc); [|discriminate]. cbn in Hl. inversion Hl; subst l.
+      cbn [bind_params] in Hm0. rewrite tsubst_none in Hm0.
+      eapply (IHB g' n1 _ a0 j0 f0); [exact Hn1 | exact Hf0 | exact Hmono | exact Hsmall | exact Ha0 | exact Hm0 | exact Hwf0].
+    + rewrite dummies_eq in Ha0.
+      eapply (IH n1 (rsubst args t0) (tsubst (bind_params (d_params dc) l) (bind_params (d_params dc) l) a0) j0 f0);
+        [lia | exact Hf0 | exact Hmono | exact Hsmall | | exact Hm0 | exact Hwf0].
+      exact (name_of_tsubst R (nparams d) (map fst (c_params (attrs_of d))) args l (d_params dc) Hnp Hps (map_length _ _) Hl Hlen t0 a0 Hpm Ha0).
 Qed.
+
+Theorem member_accepted : forall F n t a j f,
+  F * S gf <= n -> f <= F -> mono_ty t = true -> small_arr t = true -> name_of R t = Ok a ->
+  memberb E f a j = true -> wf_json j = true -> acc (de is_upper R n t j).
+Proof. exact PA_all. Qed.
+
+(* the same for the type TS::inline() reports *)
+Theorem member_accepted_inline : forall F g n t a j f,
+  F * S gf + g <= n -> f <= F -> mono_ty t = true -> small_arr t = true -> lib_inline R (gen g) t = Ok a ->
+  memberb E f a j = true -> wf_json j = true -> acc (de is_upper R n t j).
+Proof. intros F g. exact (PB_from_PA F (PA_all F) g). Qed.
 End DeKnot.
